@@ -28,6 +28,12 @@ impl Dd {
         if let Ok(t) = TwoFloat::try_from((self.hi, self.lo)) {
             return t;
         }
+        // exact bit patterns first (NaN payloads and signalling NaNs are distinct objects)
+        for (_, t) in nonfinite_pool_objects().iter() {
+            if t.hi().to_bits() == self.hi.to_bits() && t.lo().to_bits() == self.lo.to_bits() {
+                return *t;
+            }
+        }
         for (_, t) in nonfinite_pool_objects().iter() {
             if same_word(t.hi(), self.hi) && same_word(t.lo(), self.lo) {
                 return *t;
@@ -542,6 +548,13 @@ pub fn nonfinite_pool_objects() -> &'static Vec<(&'static str, TwoFloat)> {
             ("-NAN", -TwoFloat::NAN),
             ("INFINITY-INFINITY", TwoFloat::INFINITY - TwoFloat::INFINITY),
             ("asin(2)", TwoFloat::from(2.0).asin()),
+            // NaNs that are not the canonical quiet NaN: signalling (quiet bit clear), negative, with payload;
+            // `From<f64>` stores the word untouched, so they are reachable through the API
+            ("from(sNaN)", TwoFloat::from(f64::from_bits(0x7ff0_0000_0000_0001))),
+            ("from(-sNaN)", TwoFloat::from(f64::from_bits(0xfff0_0000_0000_0001))),
+            ("from(sNaN payload)", TwoFloat::from(f64::from_bits(0x7ff4_0000_0000_0000))),
+            ("from(qNaN payload)", TwoFloat::from(f64::from_bits(0x7ff8_0000_dead_beef))),
+            ("from_f64(-qNaN)", TwoFloat::from_f64(f64::from_bits(0xfff8_0000_0000_0000))),
         ]
     })
 }
